@@ -211,3 +211,67 @@ Corollary parse_wf_normalization s u : parse s = POk u -> uri_wf u.
 Proof. intros H. exact (parsed_wf_normalization u (parse_wf s u H)). Qed.
 Corollary parse_wf_equality s u : parse s = POk u -> Identity.uri_nul_free u.
 Proof. intros H. exact (parsed_wf_equality u (parse_wf s u H)). Qed.
+
+(* ---------------------------------------------------------------- every component is a piece of the input *)
+Lemma infix_refl t : infix t t.
+Proof. exists [], []. rewrite app_nil_r. reflexivity. Qed.
+Lemma infix_app_l t x y : infix t y -> infix t (x ++ y).
+Proof. intros (a & b & ->). exists (x ++ a), b. rewrite <- app_assoc. reflexivity. Qed.
+Lemma infix_app_r t x y : infix t x -> infix t (x ++ y).
+Proof. intros (a & b & ->). exists a, (b ++ y). rewrite <- !app_assoc. reflexivity. Qed.
+Lemma infix_cons t c y : infix t y -> infix t (c :: y).
+Proof. apply (infix_app_l t [c] y). Qed.
+
+Lemma infix_slashed s ps : In s ps -> infix s (concat (map (fun s => 47 :: s) ps)).
+Proof.
+  induction ps as [|x r IH]; intros H; [destruct H|]. cbn [map concat]. destruct H as [->|H].
+  - apply infix_app_r. apply infix_cons. apply infix_refl.
+  - apply infix_app_l. exact (IH H).
+Qed.
+
+Lemma infix_join s ps : In s ps -> infix s (join_slash ps).
+Proof.
+  induction ps as [|x r IH]; intros H; [destruct H|]. destruct H as [->|H].
+  - cbn [join_slash]. destruct r; [apply infix_refl|apply infix_app_r; apply infix_refl].
+  - cbn [join_slash]. destruct r as [|y r']; [destruct H|].
+    apply infix_app_l. apply infix_app_l. exact (IH H).
+Qed.
+
+Lemma unparse_inside u : auth_ok u -> (forall f, ipFuture u = Some f -> hostText u = Some f) ->
+  components_inside u (unparse u).
+Proof.
+  intros Hau Hfu.
+  assert (opt_ok (fun t => infix t (unparse u)) (hostText u)) as Hhost.
+  { unfold unparse, authority_part, host_part. destruct (hostText u) as [h|]; [|exact I]. cbn [opt_ok].
+    apply infix_app_l. apply infix_app_r. apply infix_app_l. apply infix_app_l. apply infix_app_r.
+    destruct (is_lit u); [apply infix_app_l; apply infix_app_r|]; apply infix_refl. }
+  unfold components_inside. repeat split.
+  - unfold unparse, scheme_part. destruct (scheme u); [|exact I]. cbn [opt_ok opt_post].
+    apply infix_app_r. apply infix_app_r. apply infix_refl.
+  - unfold unparse, authority_part, auth_ok in *. destruct (userInfo u) as [t|] eqn:E; [|exact I]. cbn [opt_ok].
+    destruct (hostText u) as [h|]; [|destruct Hau as [Hau _]; discriminate Hau].
+    apply infix_app_l. apply infix_app_r. apply infix_app_l. apply infix_app_r. cbn [opt_post].
+    apply infix_app_r. apply infix_refl.
+  - exact Hhost.
+  - destruct (ipFuture u) as [f|] eqn:E; [|exact I]. cbn [opt_ok]. rewrite (Hfu f eq_refl) in Hhost. exact Hhost.
+  - unfold unparse, authority_part, auth_ok in *. destruct (portText u) as [t|] eqn:E; [|exact I]. cbn [opt_ok].
+    destruct (hostText u) as [h|]; [|destruct Hau as [_ Hau]; discriminate Hau].
+    apply infix_app_l. apply infix_app_r. apply infix_app_l. apply infix_app_l. apply infix_app_l. cbn [opt_pre].
+    apply infix_app_l. apply infix_refl.
+  - rewrite Forall_forall. intros s Hs. unfold unparse, path_part.
+    apply infix_app_l. apply infix_app_l. apply infix_app_r.
+    destruct (is_some (hostText u)); [apply infix_slashed; exact Hs|apply infix_app_l; apply infix_join; exact Hs].
+  - unfold unparse. destruct (query u); [|exact I]. cbn [opt_ok opt_pre].
+    apply infix_app_l. apply infix_app_l. apply infix_app_l. apply infix_app_r. apply infix_app_l. apply infix_refl.
+  - unfold unparse. destruct (fragment u); [|exact I]. cbn [opt_ok opt_pre].
+    apply infix_app_l. apply infix_app_l. apply infix_app_l. apply infix_app_l. apply infix_app_l. apply infix_refl.
+Qed.
+
+(* on success every reported text is a contiguous piece of the input *)
+Theorem parse_inside s u : parse s = POk u -> components_inside u s.
+Proof.
+  intros H. rewrite <- (parse_unparse s u H) at 1.
+  destruct (parse_wf s u H) as (_ & _ & _ & Hau).
+  destruct (parse_wf_normalization s u H) as (_ & Hfu & _).
+  apply unparse_inside; assumption.
+Qed.
